@@ -454,3 +454,59 @@ def strip_convs(t):
             return x[2]
         return None
     return rewrite(t, fn)
+
+
+# ---------------------------------------------------------------- finite abstract evaluation of loop-free integer functions (E4)
+def ieval(body, env, maxsteps=500):
+    """Evaluate a loop-free integer/boolean function for one assignment of its parameters (env: name -> int).
+    Only literals, parameters, comparison / arithmetic operators and overflow asserts are understood; raises KeyError otherwise."""
+    def val(t):
+        t = strip_convs(t)
+        k = t[0]
+        if k == 'c':
+            return t[1]
+        if k == 'k' and t[2] is not None:
+            return t[2]
+        if k == 'v':
+            if t[1] in env:
+                return env[t[1]]
+            d = body.def_term(t[2])
+            if d is not None:
+                return val(d)
+            raise KeyError(t[1])
+        if k == 'cast':
+            return val(t[2])
+        if k == 'un' and t[1] == 'Not':
+            return int(not val(t[2]))
+        if k == 'op':
+            a, c = val(t[2]), val(t[3])
+            o = t[1].replace('WithOverflow', '').replace('Unchecked', '')
+            f = {'Add': lambda: a + c, 'Sub': lambda: a - c, 'Mul': lambda: a * c, 'Div': lambda: a // c, 'Rem': lambda: a % c,
+                 'Shr': lambda: a >> c, 'Shl': lambda: a << c, 'BitAnd': lambda: a & c, 'BitOr': lambda: a | c, 'BitXor': lambda: a ^ c,
+                 'Eq': lambda: int(a == c), 'Ne': lambda: int(a != c), 'Lt': lambda: int(a < c), 'Le': lambda: int(a <= c),
+                 'Gt': lambda: int(a > c), 'Ge': lambda: int(a >= c)}
+            if o not in f:
+                raise KeyError(o)
+            return f[o]()
+        raise KeyError(tstr(t, 60))
+    blk, ret = 0, None
+    for _ in range(maxsteps):
+        for st in body.blocks[blk]['stmts']:
+            if st['k'] == 'assign' and st['p']['l'] == 0 and not st['p']['pr']:
+                ret = val(body.rvalue_term(st['r'], 0, blk))
+        t = body.term(blk)
+        if t['k'] == 'return':
+            return ret
+        if t['k'] == 'switch':
+            sc = body.switch_cond(blk)
+            if sc[0] == 'bool':
+                blk = (sc[2] if val(sc[1]) else sc[3])[0]
+            else:
+                v = val(sc[1])
+                nxt = [tg for x, tg in sc[2] if x == v]
+                blk = nxt[0] if nxt else sc[3]
+        elif t['k'] in ('goto', 'drop', 'assert'):
+            blk = t['target']
+        else:
+            raise KeyError(t['k'])
+    raise KeyError('too many steps')
